@@ -268,7 +268,12 @@ def run_history(ctx, numel, frame, ops, answer=None, rng=None):
         _MOTION = None
     elif _MOTION is not None:
         cj["probe_motion"] = [_MOTION[0].tolist(), _MOTION[1].tolist()]
-    fr = build(numel, frame)
+    try:
+        fr = build(numel, frame)
+    except Exception as e:
+        # the generated frames consist of distinct pairs: refusing one is a violation with this frame as the failing input
+        ctx.violate(f"Frame.__init__ refused a frame of distinct (tx, rx) pairs: {type(e).__name__}: {str(e)[:80]} — pairs {[(a, b) for a, b, _ in frame]}", cj, {"kind": "frame_refused"})
+        return [], ["E"], cj
     states = []
     s, ok = state_of(fr)
     states.append(s)
